@@ -101,9 +101,22 @@ def absR (q : Rat) : Rat := if q < 0 then -q else q
 
 def fuel : Nat := 9
 
+/-- how far the claim is from the enclosure, in ulps, as a coarse bucket (reported with violations so
+    that different defects can be told apart; computed from one further refinement of the enclosure) -/
+def bucket (encl : Nat → Rat × Rat) (r u : Rat) (n : Nat) : String :=
+  if u ≤ 0 then "zero-result"
+  else
+    let e := encl (2 * n + 64)
+    let dHi := (if absR (e.1 - r) < absR (e.2 - r) then absR (e.2 - r) else absR (e.1 - r)) / u   -- upper bound of |r−v|/u
+    if dHi < 1 + (1 : Rat) / 16 then "error=1ulp+tiny(<2^-4ulp)"
+    else if dHi < 2 then "error<2ulp"
+    else if dHi < 16 then "error<16ulp"
+    else "error>=16ulp"
+
 /-- what the driver prints for a verdict.  `cert exact` runs the certificate with the given flag; a
     violation of a claim flagged Exact is re-examined without the flag to tell the two clauses apart. -/
-def verdictStr (cert : Bool → Verdict × Nat) (exact : Bool) (claimText : String) : String :=
+def verdictStr (cert : Bool → Verdict × Nat) (exact : Bool) (claimText : String)
+    (bk : Nat → String := fun _ => "") : String :=
   let v := cert exact
   match v.1 with
   | .certified => ok claimText ++ " #cert-n=" ++ toString v.2
@@ -113,9 +126,19 @@ def verdictStr (cert : Bool → Verdict × Nat) (exact : Bool) (claimText : Stri
     if exact then
       match (cert false).1 with
       | .certified => "violation Exact-flag-on-inexact-result value-within-1ulp" ++ eff
-      | .violation => "violation result-not-within-1ulp and-flagged-Exact" ++ eff
+      | .violation => "violation result-not-within-1ulp and-flagged-Exact " ++ bk v.2 ++ eff
       | .undecided => "violation Exact-flag-on-inexact-result value-undecided" ++ eff
-    else "violation result-not-within-1ulp" ++ eff
+    else "violation result-not-within-1ulp " ++ bk v.2 ++ eff
+
+/-- verdict of an exact comparison (`certPowi`, `certPowfExact`): the true value `v` is a known
+    rational; a result lying exactly one ulp from it is named as such (directed rounding of a working
+    value that fell on the wrong side of an exactly representable result) -/
+def exactStr (cert : Bool → Verdict) (B : Nat) (v : Rat) (sig e : Int) (p : Nat) (exact : Bool)
+    (text : String) : String :=
+  let r := fval B sig e; let u := ulp B sig e p
+  if cert exact = .violation ∧ !exact ∧ absR (r - v) = u then
+    "violation result-exactly-1ulp-from-the-exact-rational-value"
+  else verdictStr (fun ex => (cert ex, 0)) exact text (fun _ => bucket (fun _ => (v, v)) r u 0)
 
 /-- well-formedness of a claimed result: carries the context precision and fits it -/
 def claimShapeOk (B p : Nat) (sig : Int) (prec : Nat) : Bool :=
@@ -136,33 +159,29 @@ def certUnary (fn : Fn) (a : FArg) (p : Nat) (claim : Claim) : Option String :=
       let x := a.val
       match fn with
       | .exp =>
-        if absR x ≤ 64 ∧ e.natAbs ≤ 4096 then
+        if absR x ≤ 4096 ∧ e.natAbs ≤ maxExpAbs then
           let r := fval B sig e; let u := ulp B sig e p
-          some (verdictStr (fun ex => certExp B x sig e p ex fuel (effort0 (absR r) u)) exact text)
+          some (verdictStr (fun ex => certExp B x sig e p ex fuel (effort0 (absR r) u)) exact text (bucket (expEncl x) r u))
         else
-          -- |x| large: compare significand with exp(x)/B^e; implausible exponents are not attempted
-          let est : Rat := x * (if B == 2 then 1443 else if B == 3 then 910 else if B == 10 then 434
-                                else if B == 16 then 361 else 279) / 1000   -- ≈ x / ln B
-          let top : Rat := (e : Rat) + (digits B sig.natAbs : Nat)
-          if absR (est - top) > absR est / 100 + 16 then
-            some ("violation exponent-implausible " ++ text)
-          else
-            let u := ulpScaled B sig p
-            some (verdictStr (fun ex => certExpScaled B x sig e p ex fuel (effort0 (absR sig) u)) exact text)
+          -- |x| large: compare the significand with exp(x)/B^e (the claim's exponent may be astronomically
+          -- large; a claim whose exponent is far off is refuted by the rigorous pre-test `tooBig`)
+          let u := ulpScaled B sig p
+          some (verdictStr (fun ex => certExpScaled B x sig e p ex fuel (effort0 (absR sig) u)) exact text
+            (fun n => if n = 0 then "error>=16ulp(exponent-far-off)" else bucket (expScaledEncl B x e) sig u n))
       | .expm1 =>
-        if absR x ≤ 64 ∧ e.natAbs ≤ maxExpAbs then
+        if absR x ≤ 200000 ∧ e.natAbs ≤ 10 * maxExpAbs then
           let r := fval B sig e; let u := ulp B sig e p
-          some (verdictStr (fun ex => certExpm1 B x sig e p ex fuel (effort0 (absR r + 1) u)) exact text)
+          some (verdictStr (fun ex => certExpm1 B x sig e p ex fuel (effort0 (absR r + 1) u)) exact text (bucket (expm1Encl x) r u))
         else none
       | .ln =>
         if e.natAbs ≤ maxExpAbs then
           let r := fval B sig e; let u := ulp B sig e p
-          some (verdictStr (fun ex => certLn B x sig e p ex fuel (effort0 1 u + 16)) exact text)
+          some (verdictStr (fun ex => certLn B x sig e p ex fuel (effort0 1 u + 16)) exact text (bucket (lnEncl x) r u))
         else none
       | .ln1p =>
         if e.natAbs ≤ maxExpAbs then
           let r := fval B sig e; let u := ulp B sig e p
-          some (verdictStr (fun ex => certLn1p B x sig e p ex fuel (effort0 1 u + 16)) exact text)
+          some (verdictStr (fun ex => certLn1p B x sig e p ex fuel (effort0 1 u + 16)) exact text (bucket (lnEncl (1 + x)) r u))
         else none
   | .panic _ => some "required a-value-within-1ulp (no documented panic applies to this input)"
   | .other t => some ("required a-value-within-1ulp; observed " ++ t)
@@ -188,6 +207,18 @@ def unary (fn : Fn) (a : FArg) (p : Nat) (claim : Option (List String)) : Option
     -- outside the mathematical domain the property (C16) requires a documented panic
     if fn == .ln ∧ a.x.sig ≤ 0 then some domainPanic
     else if fn == .ln1p ∧ a.small ∧ a.val ≤ -1 then some domainPanic
+    else if (fn == .exp ∨ fn == .expm1) ∧ a.small ∧ absR a.val ≥ ((2 ^ 61 : Nat) : Rat) then
+      -- s = floor(x / ln B) must fit `isize`; beyond that the result's exponent cannot be represented and
+      -- the documented overflow panic is required (decided with an enclosure of ln B)
+      let l := lnEncl (a.base : Rat) 96
+      let x := a.val
+      let lim : Rat := ((2 ^ 63 : Nat) : Rat)
+      if 0 < x then
+        (if x / l.1 < lim then do let c ← claim; certUnary fn a p (parseClaim c)
+         else if x / l.2 ≥ lim + 1 then some (Dashu.Driver.panic "ExponentOverflow") else none)
+      else
+        (if x / l.1 ≥ -lim then do let c ← claim; certUnary fn a p (parseClaim c)
+         else if x / l.2 < -lim - 1 then some (Dashu.Driver.panic "ExponentOverflow") else none)
     else do
       let c ← claim
       certUnary fn a p (parseClaim c)
@@ -201,20 +232,41 @@ def powi (a : FArg) (k : Int) (p : Nat) (claim : Option (List String)) : Option 
       | .value sig e prec exact text =>
         if p ≠ 0 ∧ !claimShapeOk a.base p sig prec then
           some ("violation result-does-not-fit-context-precision " ++ text)
-        else if !a.small ∨ e.natAbs > 4 * maxExpAbs ∨ k.natAbs > 100000 then none
+        else if !a.small then none
+        else if e.natAbs > 4000000 ∨ (a.val.num.natAbs.log2 + a.val.den.log2 + 2) * k.natAbs > 20000000 then
+          -- the exact rational power is too large to write down: x^k = exp(k·ln x) for a positive base
+          -- (`checkedPowiBig_sound`), compared after scaling by B^e
+          if p = 0 ∨ a.val ≤ 0 then none
+          else
+            let B := a.base; let x := a.val; let y : Rat := (k : Rat)
+            let aiv := scaleRat y (lnEncl x (64 + magBits y))
+            let amax := if absR aiv.1 < absR aiv.2 then absR aiv.2 else absR aiv.1
+            if amax ≥ ((2 ^ 62 : Nat) : Rat) then none
+            else
+              let u := ulpScaled B sig p
+              some (verdictStr (fun ex => certPowfScaled B x y sig e p ex fuel (effort0 (absR sig) u)) exact text
+                (fun n => if n = 0 then "error>=16ulp(exponent-far-off)" else bucket (powfScaledEncl B x y e) sig u n))
         else if p = 0 then
           -- unlimited precision, non-negative exponent: the result must be exact
           some (if fval a.base sig e = powiExact a.val k ∧ exact then ok text
                 else "violation unlimited-precision-power-not-exact " ++ text)
         else
-          some (verdictStr (fun ex => (certPowi a.base a.val k sig e p ex, 0)) exact text)
+          some (exactStr (fun ex => certPowi a.base a.val k sig e p ex) a.base (powiExact a.val k) sig e p exact text)
       | .panic _ => some "required a-value-within-1ulp (no documented panic applies to this input)"
       | .other t => some ("required a-value-within-1ulp; observed " ++ t)
 
 def powf (a b : FArg) (p : Nat) (claim : Option (List String)) : Option String :=
   entryStr (powfEntry a.x b.x p) a p fun _ =>
     if b.x.inf then some (Dashu.Driver.panic "Infinite")
-    else do
+    else if !a.small ∨ !b.small then none
+    else
+      -- |y · ln x| against the range of the exponent type
+      let aiv := scaleRat b.val (lnEncl a.val (64 + magBits b.val))
+      let amin := if aiv.1 ≤ 0 ∧ 0 ≤ aiv.2 then 0 else if absR aiv.1 < absR aiv.2 then absR aiv.1 else absR aiv.2
+      let amax := if absR aiv.1 < absR aiv.2 then absR aiv.2 else absR aiv.1
+      if amin ≥ ((2 ^ 66 : Nat) : Rat) then some (Dashu.Driver.panic "ExponentOverflow")
+      else if amax ≥ ((2 ^ 62 : Nat) : Rat) then none
+      else do
       let c ← claim
       match parseClaim c with
       | .value sig e prec exact text =>
@@ -223,19 +275,22 @@ def powf (a b : FArg) (p : Nat) (claim : Option (List String)) : Option String :
         else if !a.small ∨ !b.small then none
         else
           let x := a.val; let y := b.val
+          -- exact path: x = s^(den y) for a rational s (integer y: s = x) and a power of moderate size
+          let root : Option Rat :=
+            if y.den ≤ 64 ∧ (x.num.natAbs.log2 + x.den.log2 + 2) * y.num.natAbs ≤ 4000000 * y.den
+            then ratRoot y.den x else none
+          match root with
+          | some s => some (exactStr (fun ex => certPowfExact B s y sig e p ex) B (s ^ y.num) sig e p exact text)
+          | none =>
           -- |y · log2 x| decides between the direct and the scaled comparison
           let lg : Rat := (absR (log2Rat x : Rat) + 1) * absR y
-          if lg ≤ 64 ∧ e.natAbs ≤ 4096 then
+          if lg ≤ 4096 ∧ e.natAbs ≤ maxExpAbs then
             let r := fval B sig e; let u := ulp B sig e p
-            some (verdictStr (fun ex => certPowf B x y sig e p ex fuel (effort0 (absR r) u)) exact text)
+            some (verdictStr (fun ex => certPowf B x y sig e p ex fuel (effort0 (absR r) u)) exact text (bucket (powfEncl x y) r u))
           else
-            let l2B : Rat := if B == 2 then 1000 else if B == 3 then 1585 else if B == 10 then 3322
-                             else if B == 16 then 4000 else 5170            -- ≈ 1000·log2 B
-            let top : Rat := ((e : Rat) + (digits B sig.natAbs : Nat)) * l2B / 1000   -- ≈ log2 of the claim
-            if absR top > 2 * lg + 64 then some ("violation exponent-implausible " ++ text)
-            else
-              let u := ulpScaled B sig p
-              some (verdictStr (fun ex => certPowfScaled B x y sig e p ex fuel (effort0 (absR sig) u)) exact text)
+            let u := ulpScaled B sig p
+            some (verdictStr (fun ex => certPowfScaled B x y sig e p ex fuel (effort0 (absR sig) u)) exact text
+              (fun n => if n = 0 then "error>=16ulp(exponent-far-off)" else bucket (powfScaledEncl B x y e) sig u n))
       | .panic _ => some "required a-value-within-1ulp (no documented panic applies to this input)"
       | .other t => some ("required a-value-within-1ulp; observed " ++ t)
 
@@ -272,6 +327,10 @@ def run (kind name : String) (pre : List String) (claim : Option (List String)) 
     unary fn a p claim
   | _, _, _ => none
 
+/-- violations name the operation (the known-finding predicates key on it) -/
+def tagOp (kind name : String) (r : Option String) : Option String :=
+  r.map fun s => if s.startsWith "violation " then s ++ " op=" ++ kind ++ "." ++ name else s
+
 def dispatch : Dispatch := fun _W op args =>
   let (pre, claim) := splitClaim args
   match op.splitOn "." with
@@ -280,7 +339,7 @@ def dispatch : Dispatch := fun _W op args =>
     match run kind name pre none with
     | some s => some s
     | none => some "required a-value-within-1ulp-or-a-documented-panic"
-  | [kind, name] => run kind name pre claim
+  | [kind, name] => tagOp kind name (run kind name pre claim)
   | _ => none
 
 end Dashu.Driver.Trans
